@@ -566,13 +566,13 @@ RestartEventReachesOld == (em.on /\ em.ev = "instancerestart") => em.snap = snap
 RestartEventScope == (em.on /\ em.ev = "instancerestart") => (em.snap = {} \/ em.snap = snapU)
 
 \* ShutdownEvent: at most once per process, inside the Once, before any shutdown callback of the
-\* process-exit path; QUIT and a forced exit never emit it on their own
+\* process-exit path, and emitted whenever the process leaves through TERM or a first INT (QUIT
+\* and the forced exit of a second INT emit nothing themselves)
 ShutdownAtMostOnce ==
     /\ nEmit["shutdown"] <= 1
     /\ nEmit["shutdown"] = 1 => once # "idle"
     /\ (ppc = "cbs" \/ jpc = "cbs") => nEmit["shutdown"] = 1
     /\ exited \in {"term", "int"} => nEmit["shutdown"] = 1
-    /\ exited = "quit" => (nEmit["shutdown"] = 1 => once # "idle")
 \* StartupEvent once, before any configuration
 StartupOnce == nEmit["startup"] <= 1 /\ (pc # "boot" => nEmit["startup"] = 1)
 \* CertRenewEvent only for renewals
